@@ -950,7 +950,8 @@ func TestC05LateRegistration(t *testing.T) {
 
 // ---- rapid -----------------------------------------------------------------------------------------------------------------------
 
-var rootNames = []string{"res", "resx", "re", "other", "k", "sub"}
+// ("api", "pets", "v1x": names that start with characters of the mount prefix /api/v1)
+var rootNames = []string{"res", "resx", "re", "other", "k", "sub", "api", "pets", "v1x"}
 var childNames = []string{"sub", "leaf", "k", "res", "k2", "a1"}
 var keyVocab = []string{"k", "k2", "a", "1", "sub", "res", "leaf", "a%2Fb", "a%20b", "x.y", "..", ".", "''", "(a:1)", "List(a,b)", "a)", "(a", "a:b", "a'b", "f1", "unknown", "resx"}
 var paramNames = []string{"q", "ids", "action", "other", "start", "count", "fields"}
